@@ -25,11 +25,12 @@ REPLAYS = os.path.join(VERIF, "replays")
 _W = {}
 
 
-def _worker_init(world_id, master, scratch, block_timeout):
+def _worker_init(world_id, master, scratch, block_timeout, tier="quick"):
     from .. import registry
 
     seams.install()
     _W["world"] = registry.get(world_id)
+    _W["world"].TIER = tier
     _W["master"] = master
     _W["known"] = findings.load(world_id)
     _W["journal"] = open(os.path.join(scratch, f"w{os.getpid()}.journal"), "w")
@@ -178,6 +179,7 @@ def _probe_death(world_id, tier, seed, index):
 
 def run_check(world, tier, seed, runs, wall_cap, workers=None, block=None, shrink_budget=30.0, quiet=False):
     t0 = time.monotonic()
+    world.TIER = tier
     world_id = world.ID
     master = derive(seed, world_id, tier)
     workers = workers or min(16, os.cpu_count() or 1)
@@ -208,7 +210,7 @@ def run_check(world, tier, seed, runs, wall_cap, workers=None, block=None, shrin
     next_lo = 0 if det_ok else runs
     pending = set()
     try:
-        with ProcessPoolExecutor(max_workers=workers, mp_context=ctx, initializer=_worker_init, initargs=(world_id, master, scratch, block_timeout)) as pool:
+        with ProcessPoolExecutor(max_workers=workers, mp_context=ctx, initializer=_worker_init, initargs=(world_id, master, scratch, block_timeout, tier)) as pool:
             try:
                 while (next_lo < runs or pending) and violation is None and error is None:
                     while next_lo < runs and len(pending) < workers * 2:
